@@ -303,9 +303,12 @@ def tlc_rename(tier):
     return out, res
 
 
-def tlc_sessions(maxops, simulate, seed, ops):
+def tlc_sessions(maxops, simulate, seed, ops, big=True):
+    # (the store holding the script of more than a mebibyte is left out of the exhaustive thorough enumeration: millions
+    # of sessions would each move it; it stays in the sampled and simulated ones)
     defs = ('MCInit == {[scripts |-> ("a" :> "B1") @@ ("b" :> "B2"), active |-> "a"], [scripts |-> <<>>, active |-> ""],'
-            ' [scripts |-> ("a" :> "B10") @@ ("b" :> "B2"), active |-> "b"], [scripts |-> ("b" :> "B11") @@ ("a" :> "B1"), active |-> "a"],'
+            ' [scripts |-> ("a" :> "B10") @@ ("b" :> "B2"), active |-> "b"],'
+            + (' [scripts |-> ("b" :> "B11") @@ ("a" :> "B1"), active |-> "a"],' if big else "") +
             ' [scripts |-> ("r{2}" :> "B4"), active |-> ""]}\n')
     cfg = ("SPECIFICATION Spec\nCONSTANTS\n Names = {\"a\", \"b\", \"r{2}\"}\n Bodies = {\"B1\", \"B2\", \"B3\", \"B4\", \"B5\", \"B6\", \"B7\", \"B8\", \"B9\", \"B10\"}\n"
            " MaxOps = %d\n InitStores <- MCInit\n OpKinds = {%s}\nINVARIANT Emit\nINVARIANT WellFormed\nCHECK_DEADLOCK FALSE\n"
@@ -353,7 +356,7 @@ def run(prop, tier, seed, write_evidence=True):
         replay_fn, csize = replay_rename, 100
     else:
         # exhaustive short sessions + simulated long ones
-        short, r1 = tlc_sessions(2, None, None, ALLOPS[:6] if tier == "quick" else ALLOPS)
+        short, r1 = tlc_sessions(2, None, None, ALLOPS[:6] if tier == "quick" else ALLOPS, big=(tier == "quick"))
         longs, r2 = tlc_sessions(12 if tier == "quick" else 25, 40 if tier == "quick" else 2500, seed + 3, ALLOPS)
         for r in (r1, r2):
             if r["error"] or r["violated"]:
